@@ -34,6 +34,7 @@ package ports
 // ---- C09: routing decisions
 //@ func NewRoutingDecision
 //@   property C09
+//@   safety
 //@   ensures res != nil && fresh(res) && res.Strategy == strategy && res.Action == action && res.Reason == reason
 //@   ensures action == "rejected" && reason == "model_not_found" ==> res.StatusCode == 404
 //@   ensures action == "rejected" && reason != "model_not_found" ==> res.StatusCode == 503
@@ -81,6 +82,7 @@ package ports
 // and it hands back the first denial as it is
 //@ func (sc *SecurityChain) Validate
 //@   property C17
+//@   safety
 //@   requires sc != nil && (forall k int :: 0 <= k && k < len(sc.validators) ==> sc.validators[k] != nil)
 //@   modifies gvar valCalls, gvar valDenials
 //@   loop 1 invariant valDenials == old(valDenials) && valCalls == old(valCalls) + i$1
